@@ -350,17 +350,16 @@ class IPVPNBase(Label):
         return len(self._packed)
 
     def __eq__(self, other: Any) -> bool:
-        # Compare complete wire format (includes RD)
+        # Compares index(): family, path identifier, RD and prefix. The labels are not part of the key.
         return Label.__eq__(self, other)
 
     def __ne__(self, other: Any) -> bool:
         return not self.__eq__(other)
 
     def __hash__(self) -> int:
-        # _packed includes everything (labels + RD); use _has_addpath as discriminator
-        if self._has_addpath:
-            return hash(self._packed)
-        return hash(b'disabled' + self._packed)
+        # must agree with __eq__: two routes which only differ by their labels are equal,
+        # hashing _packed (which holds the labels) gave them different hashes
+        return hash(self.index())
 
     def __copy__(self) -> Self:
         new = self.__class__.__new__(self.__class__)
